@@ -60,8 +60,12 @@ def truthy(rng, key):
 
 
 def inject(m, rng, mode):
-    """mode: 'none' | 'all' | 'some' | 'falsy'"""
+    """mode: 'none' | 'all' | 'tpl' | 'ext' | 'some' | 'falsy'"""
     if mode == "none":
+        return m
+    if mode in ("tpl", "ext"):      # only the template keys / only the external-source key
+        for k in (OPT_KEYS[1:] if mode == "tpl" else OPT_KEYS[:1]):
+            m[k] = truthy(rng, k)
         return m
     for k in OPT_KEYS:
         if mode == "all" or (mode == "some" and rng.random() < 0.5):
@@ -145,7 +149,7 @@ def mk_case(doc, args, entry, env, phs, explicit=False):
 
 
 def random_doc(rng, mode=None):
-    mode = mode or rng.choice(["none", "all", "all", "some", "some", "falsy"])
+    mode = mode or rng.choice(["none", "all", "tpl", "tpl", "ext", "some", "some", "falsy"])
     def tr_item(depth):
         r = rng.random()
         if r < 0.45:
@@ -249,7 +253,7 @@ def gen(tier, rng):
     slots = [("post", 0), ("fin", 0), ("fin", 1), ("fin", 2), ("fin", 3)]
     for slot, depth in slots:
         for vp in vars_paths:
-            for mode in ["none", "all"]:
+            for mode in ["none", "all", "tpl"]:
                 combos = list(itertools.product([False, True], PATHS_ARGS, envs_tv))
                 if quick:
                     combos = rng.sample(combos, 6 if depth < 2 else 3)
